@@ -944,6 +944,20 @@ func dupInsert(t *rapid.T, tables []TableSpec) *Stmt {
 	return nil
 }
 
+// IntegerOnly reports whether every column of every table is a small integer type (INT, SMALLINT, TINYINT):
+// the value kinds the protobuf undo-log serializer carries faithfully (its loss of the others is known
+// finding C08-K1).
+func IntegerOnly(tables []TableSpec) bool {
+	for _, tb := range tables {
+		for _, c := range tb.Cols {
+			if c.Base != "INT" && c.Base != "SMALLINT" && c.Base != "TINYINT" {
+				return false
+			}
+		}
+	}
+	return true
+}
+
 // DupInsert is dupInsert for other packages.
 func DupInsert(t *rapid.T, tables []TableSpec) *Stmt { return dupInsert(t, tables) }
 
